@@ -4,7 +4,10 @@
  *
  * Each line of programs.txt is one program (a behaviour of spec/DTD/Seq.tla printed by TLC, turned into text by the
  * check):
- *     nd=<ND> fl=<A|S:d,d,..> w=<window> th=<threshold> ins=<0|1> sp=<min_us>:<max_us> ; <rank> <nacc> d m d m .. ; ...
+ *     nd=<ND> fl=<A|S:d,d,..> w=<window> th=<threshold> ins=<0|1> sp=<min_us>:<max_us> nz=<0|1> id=<min_us>:<max_us> ; <rank> <nacc> d m d m .. ; ...
+ * id: the inserting thread pauses that long before each insertion (insertion concurrent with completions).
+ * nz=P > 0 (noise, P percent of the gate operations are delayed by 100-500 us): the yield-point hook of the PARSEC_VERIF build (called before every parsec_atomic_* operation) delays,
+ * pseudo-randomly, the operations on the reader counters of the tiles' data copies (DTD's reader / writer gate).
  * m: 1 = R (PARSEC_INPUT), 2 = W (PARSEC_OUTPUT), 3 = RW (PARSEC_INOUT).  Datum d (1..ND) is tile d-1 of a 1-D
  * block-cyclic collection of one-int tiles (owner (d-1) % world), initial content d*1009.
  *
@@ -21,6 +24,8 @@
 #include "parsec/data_dist/matrix/two_dim_rectangle_cyclic.h"
 #include "parsec/interfaces/dtd/insert_function.h"
 #include "parsec/utils/debug.h"
+#include "parsec/data_internal.h"
+#include "parsec/sys/verif_hooks.h"
 #include "vtrace.h"
 #include <mpi.h>
 #include <signal.h>
@@ -33,7 +38,7 @@
 
 typedef struct { int rank, nacc, d[MAXA], m[MAXA]; } ptask_t;
 typedef struct {
-    int nd, nt, window, threshold, ins, spmin, spmax;
+    int nd, nt, window, threshold, ins, spmin, spmax, noise, idmin, idmax;
     int flmode;               /* 'A' flush_all, 'S' parsec_dtd_data_flush of the listed data, then flush_all */
     int nfl, fl[MAXD];
     ptask_t t[MAXT + 1];      /* 1-based */
@@ -61,6 +66,24 @@ static void die_with(const char *ev, int sig, int code)
 static void on_alarm(int s) { die_with("Timeout", s, 86); }
 static void on_crash(int s) { die_with("Crash", s, 87); }
 static void on_term(int s)  { die_with("Killed", s, 88); }
+
+static void spin_us(int us);
+static const volatile void *gate_addr[MAXD + 1];
+static unsigned noise_seed;
+static long noise_delays;
+/* noise mode: delay some of the atomic operations on data_copy->readers (retain / release / count) */
+static void noise_point(int kind, const volatile void *addr)
+{
+    if( PARSEC_VERIF_K_RMW != kind ) return;
+    for( int d = 1; d <= cur.nd; d++ ) {
+        if( addr == gate_addr[d] ) {
+            unsigned r = __sync_add_and_fetch(&noise_seed, 2654435761u);
+            r ^= r >> 15;
+            if( (int)(r % 100u) < cur.noise ) { spin_us(100 + (int)((r >> 8) % 400)); __sync_add_and_fetch(&noise_delays, 1); }
+            return;
+        }
+    }
+}
 
 static void spin_us(int us)
 {
@@ -150,6 +173,8 @@ static void insert_one(parsec_taskpool_t *tp, int tid)
     const ptask_t *t = &cur.t[tid];
     char buf[300]; int n = 0;
     int rank = t->rank;
+    if( cur.idmax > 0 && cur.idmax >= cur.idmin )
+        spin_us(cur.idmin + (int)(((unsigned)tid * 40503u + (unsigned)cur_index * 2654435761u) % (unsigned)(cur.idmax - cur.idmin + 1)));
     for( int i = 0; i < t->nacc; i++ )
         n += snprintf(buf + n, sizeof(buf) - n, "%s{\"d\":%d,\"m\":\"%s\"}", i ? "," : "", t->d[i],
                       1 == t->m[i] ? "R" : (2 == t->m[i] ? "W" : "RW"));
@@ -193,6 +218,8 @@ static int parse_prog(char *line, prog_t *p)
             else if( !strncmp(tok, "th=", 3) ) p->threshold = atoi(tok + 3);
             else if( !strncmp(tok, "ins=", 4) ) p->ins = atoi(tok + 4);
             else if( !strncmp(tok, "sp=", 3) ) sscanf(tok + 3, "%d:%d", &p->spmin, &p->spmax);
+            else if( !strncmp(tok, "nz=", 3) ) p->noise = atoi(tok + 3);
+            else if( !strncmp(tok, "id=", 3) ) sscanf(tok + 3, "%d:%d", &p->idmin, &p->idmax);
         }
     }
     p->flmode = fl[0];
@@ -245,6 +272,14 @@ static void run_one(void)
     for( int d = 1; d <= cur.nd; d++ )
         if( (int)A->rank_of_key(A, A->data_key(A, d - 1, 0)) == myrank ) *owner_ptr(d) = d * 1009;
     parsec_dtd_data_collection_init(A);
+    memset((void *)gate_addr, 0, sizeof(gate_addr));
+    if( cur.noise ) {
+        for( int d = 1; d <= cur.nd; d++ )
+            if( (int)A->rank_of_key(A, A->data_key(A, d - 1, 0)) == myrank )
+                gate_addr[d] = &(A->data_of_key(A, A->data_key(A, d - 1, 0))->device_copies[0]->readers);
+        noise_seed = (unsigned)cur_index * 7919u;
+        parsec_verif_point_fn = noise_point;
+    }
 
     parsec_dtd_window_size = cur.window;
     parsec_dtd_threshold_size = cur.threshold;
@@ -291,6 +326,7 @@ static void run_one(void)
     parsec_taskpool_free(tp);
     rc = parsec_context_wait(parsec);
     PARSEC_CHECK_ERROR(rc, "parsec_context_wait");
+    parsec_verif_point_fn = NULL;
     parsec_dtd_data_collection_fini(A);
     parsec_data_free(m->mat);
     parsec_tiled_matrix_destroy((parsec_tiled_matrix_t *)m);
@@ -338,6 +374,7 @@ int main(int argc, char **argv)
         vt_dump();
         if( world > 1 ) MPI_Barrier(MPI_COMM_WORLD);
     }
+    if( noise_delays ) fprintf(stderr, "noise: %ld delayed gate operations\n", noise_delays);
     parsec_dtd_free_arena_datatype(parsec, TILE_FULL);
     parsec_fini(&parsec);
     vt_close();
